@@ -154,3 +154,4 @@ CHECK["assumptions"] = ENUMX_ASSUME + [
     "goroutine preemption inside the virtual-time run is not controlled: the run is repeated until it yields the expected 26 message keys; "
     "which three members form a quorum inside a justification may differ between shards",
 ]
+CHECK["claim"] += ' Fifth session: referenced values also with WELL-FORMED unknown fields (varint field 15, bytes field 1000, highest field number) appended and prepended.'
